@@ -190,6 +190,22 @@ fn sched_cases() -> Vec<SCase> {
             });
         }
     }
+    // buffered mode with direct namings and a compressing cleanup in the background: a rotated
+    // file is compressed only with everything that was logged into it
+    for naming in [NamingK::NumbersDirect, NamingK::TimestampsDirect, NamingK::Numbers, NamingK::Timestamps] {
+        for clean in [CleanK::Gz(1), CleanK::LogGz(1, 1)] {
+            let mut cfg = Cfg::rot(CritK::Size(LIMIT), naming, clean);
+            cfg.bg_cleanup = true;
+            cfg.mode = crate::lg::ModeK::BufDont(64);
+            v.push(SCase {
+                cfg,
+                rotations: 3,
+                bound_q: 1,
+                bound_t: 3,
+                racing: false,
+            });
+        }
+    }
     // shutdown() while another thread holds the state lock: when it returns, the cleanup is
     // complete all the same
     for (naming, clean) in [(NamingK::Numbers, CleanK::Log(1)), (NamingK::TimestampsDirect, CleanK::Gz(1))] {
@@ -539,9 +555,15 @@ fn sched_body(sc: SCase) -> Arc<dyn Fn(&Arc<Sched>) -> SObs + Send + Sync> {
         let names = family::list_names(&env.dir);
         if res.is_ok() {
             res = match view(&env, &sc.cfg) {
-                Ok(v) => step_oracle(&sc.cfg, &v, None, false, &h.accepted, false, "\n")
-                    .map(|sk| (v.plain_total, v.gz, sk))
-                    .map_err(|(c, d)| (c.to_string(), d)),
+                Ok(v) => {
+                    // every file of this history was closed by the size criterion, i.e. it holds
+                    // at least one record: an empty file (compressed or not) lost its content - a
+                    // loss that the tail clause would take for a removal by the limit
+                    match v.snap.iter().find(|(_, (_, content))| content.is_empty()) {
+                        Some((logical, (gz, _))) => Err(("gz-roundtrip".to_string(), format!("{logical}{} is empty although a record was logged into it before it was closed: files {:?}", if *gz { ".gz" } else { "" }, v.names))),
+                        None => step_oracle(&sc.cfg, &v, None, false, &h.accepted, false, "\n").map(|sk| (v.plain_total, v.gz, sk)).map_err(|(c, d)| (c.to_string(), d)),
+                    }
+                }
                 Err((c, d)) => Err((c.to_string(), d)),
             };
         }
